@@ -88,6 +88,7 @@ class Result:
         self.aggs = []       # (bb, idx, rvalue, opvals)
         self.returns = []    # (bb, value of _0)
         self.panics = set()  # blocks whose assert definitely fails / diverging calls
+        self.assigns = {}    # (bb, idx) -> set of values assigned there (None = unknown)
         self.states = 0
 
     def callees(self):
@@ -161,8 +162,30 @@ class PE:
             if v is not None and v[0] == "ref":
                 self._write(env, {"l": v[1], "p": list(v[2]) + proj[1:]}, val)
             return
-        # field write into a tracked local: forget the local (sound: Unknown)
-        env.pop(l, None)
+        # field write into a tracked aggregate: update that field when the path is known
+        cur = env.get(l)
+
+        def upd(v, pr):
+            if not pr:
+                return val
+            if v is None or v[0] != "adt":
+                return UNK
+            p0 = pr[0]
+            if p0.startswith("dc"):
+                want = int(p0[2:].split(":")[0])
+                return upd(v, pr[1:]) if v[1] == want else UNK
+            if p0.startswith("f") and p0[1:].isdigit():
+                k = int(p0[1:])
+                if k < len(v[2]):
+                    fields = list(v[2])
+                    fields[k] = upd(fields[k], pr[1:])
+                    return ("adt", v[1], tuple(fields))
+            return UNK
+        nv = upd(cur, proj)
+        if nv is None:
+            env.pop(l, None)
+        else:
+            env[l] = nv
 
     def _forget(self, env, l, proj, depth=0):
         """Forget what is known about place l.proj (something may have written through a &mut)."""
@@ -588,6 +611,7 @@ class PE:
                 for idx, s in enumerate(blk["stmts"]):
                     if s["k"] == "assign":
                         v = self.rvalue(env, s["rv"], s["place"].get("ty", ""))
+                        res.assigns.setdefault((bb, idx), set()).add(v)
                         if s["rv"]["k"] == "agg":
                             res.aggs.append((bb, idx, s["rv"], tuple(self.operand(env, o) for o in s["rv"]["ops"])))
                         self._write(env, s["place"], v)
